@@ -31,32 +31,37 @@ BigT == TimeStr(23, 59)
 SmallL == LocalStr(SmallD, SmallT)
 BigL == LocalStr(BigD, BigT)
 
+\* reference values for the week probes: inside 1000..9999 whenever the probed year is, so that a
+\* defect confined to years outside that span does not hide what happens inside it
+SmallWFor(y) == IF y >= 1000 THEN WeekStr(Pad(1000, 4), 1) ELSE SmallW
+BigWFor(y) == IF y <= 9999 THEN WeekStr(Pad(9999, 4), 52) ELSE BigW
 WeekCases ==
-    UNION {Probes3(CalTWeek, WeekStr(YearStr(y), w), SmallW, BigW) : y \in Years, w \in Weeks}
-    \cup (IF Full THEN {AsMin(CalTWeek, WeekStr(YearStr(y), w), SmallW) : y \in Years, w \in 0..54} ELSE {})
+    {Probe(p, CalTWeek, WeekStr(YearStr(y), w), SmallWFor(y), BigWFor(y)) : p \in 1..3, y \in Years, w \in Weeks}
+    \cup {Probe(p, CalTWeek, WeekStr(YearStr(y), w), SmallW, BigW) : p \in 1..3, y \in RepYears, w \in Weeks}
+    \cup (IF Full THEN {AsMin(CalTWeek, WeekStr(YearStr(y), w), SmallWFor(y)) : y \in Years, w \in 0..54} ELSE {})
 \* five-digit spellings of small years: 00999-W53 is year 999
-    \cup {AsVal(CalTWeek, WeekStr(Pad(y, 5), w), BigW) : y \in {1, 4, 999, 2019, 2020, 9999}, w \in Weeks}
+    \cup {AsVal(CalTWeek, WeekStr(Pad(y, 5), w), BigWFor(y)) : y \in {1, 4, 999, 2019, 2020, 9999}, w \in Weeks}
 
 DateCases ==
     {AsMin(CalTDate, DateStr(YearStr(y), 2, dd), SmallD) : y \in Years, dd \in {28, 29, 30}}
-    \cup UNION {Probes3(CalTDate, DateStr(YearStr(y), m, dd), SmallD, BigD) : y \in RepYears, m \in MonthsG, dd \in DaysG}
+    \cup {Probe(p, CalTDate, DateStr(YearStr(y), m, dd), SmallD, BigD) : p \in 1..3, y \in RepYears, m \in MonthsG, dd \in DaysG}
     \cup (IF Full THEN {AsVal(CalTDate, DateStr(YearStr(y), m, dd), BigD) : y \in Years, m \in 1..12, dd \in {0, 1, 28, 29, 30, 31, 32}} ELSE {})
     \cup {AsMax(CalTDate, DateStr(YearStr(2021), m, dd), BigD) : m \in 0..13, dd \in 0..32}
 
 MonthCases ==
-    UNION {Probes3(CalTMonth, MonthStr(YearStr(y), m), SmallM, BigM) : y \in RepYears, m \in MonthsG}
+    {Probe(p, CalTMonth, MonthStr(YearStr(y), m), SmallM, BigM) : p \in 1..3, y \in RepYears, m \in MonthsG}
     \cup {AsVal(CalTMonth, MonthStr(YearStr(y), 12), BigM) : y \in Years}
     \cup {AsMin(CalTMonth, MonthStr(YearStr(2020), m), SmallM) : m \in 0..13}
 
 TimeStrs == {TimeStr(h, mi) : h \in Hours \cup {9, 12}, mi \in Minutes \cup {5, 30}}
-TimeCases == UNION {Probes3(CalTTime, s, SmallT, BigT) : s \in TimeStrs}
+TimeCases == {Probe(p, CalTTime, s, SmallT, BigT) : p \in 1..3, s \in TimeStrs}
              \cup {AsVal(CalTTime, TimeStr(h, mi), BigT) : h \in 0..25, mi \in {0, 59, 60, 99}}
              \cup {AsMin(CalTTime, TimeStr(h, mi), SmallT) : h \in {0, 23, 24, 99}, mi \in 0..61}
 
 LocalDates == {DateStr(YearStr(2020), 2, 29), DateStr(YearStr(2019), 2, 29), DateStr(YearStr(2020), 13, 1),
                DateStr(YearStr(2020), 4, 30), DateStr(YearStr(2020), 4, 31), DateStr(YearStr(1), 1, 1),
                DateStr(YearStr(10000), 12, 31), DateStr(YearStr(1900), 2, 29), DateStr(YearStr(2000), 2, 29)}
-LocalCases == UNION {Probes3(CalTLocal, LocalStr(ds, TimeStr(h, mi)), SmallL, BigL) : ds \in LocalDates, h \in Hours, mi \in Minutes}
+LocalCases == {Probe(p, CalTLocal, LocalStr(ds, TimeStr(h, mi)), SmallL, BigL) : p \in 1..3, ds \in LocalDates, h \in Hours, mi \in Minutes}
 
 \* malformed shapes: all single-character mutations of these seeds (3-digit year, missing zero
 \* padding, trailing and leading junk, wrong separators, lower-case t / w, foreign digits ..),
@@ -68,29 +73,30 @@ SeedT == TimeStr(23, 59)
 SeedL == LocalStr(DateStr(YearStr(2020), 12, 31), TimeStr(23, 59))
 Secs == <<58, 51, 48>>                 \* :30
 SecsF == <<58, 51, 48, 46, 53>>        \* :30.5
-Wider(t, s, small, big) == Probes3(t, s \o Secs, small, big) \cup Probes3(t, s \o SecsF, small, big)
-                           \cup Probes3(t, s \o <<58, 54, 48>>, small, big)      \* :60 is no second
+Wider(t, s, small, big) == {Probe(p, t, s \o x, small, big) : p \in 1..3, x \in {Secs, SecsF, <<58, 54, 48>>}}     \* :60 is no second
+OddYears == {Pad(999, 3), Pad(0, 4), Pad(0, 5), Pad(1, 3), Pad(2020, 5), Pad(1, 7), <<>>}
 MalCases ==
-    UNION {Probes3(CalTDate, s, SmallD, BigD) : s \in Mutants(SeedD, Junk) \cup {<<>>, SeedM, SeedW, SeedT, SeedL}}
-    \cup UNION {Probes3(CalTMonth, s, SmallM, BigM) : s \in Mutants(SeedM, Junk) \cup {<<>>, SeedD, SeedW, SeedT}}
-    \cup UNION {Probes3(CalTWeek, s, SmallW, BigW) : s \in Mutants(SeedW, Junk) \cup {<<>>, SeedD, SeedM, SeedT}}
-    \cup UNION {Probes3(CalTTime, s, SmallT, BigT) : s \in Mutants(SeedT, Junk) \cup {<<>>, SeedD, SeedL, <<49,50,51,48>>}}
-    \cup UNION {Probes3(CalTLocal, s, SmallL, BigL) : s \in Mutants(SeedL, Junk) \cup {<<>>, SeedD, SeedT}}
+    {Probe(p, CalTDate, s, SmallD, BigD) : p \in 1..3, s \in Mutants(SeedD, Junk) \cup {<<>>, SeedM, SeedW, SeedT, SeedL}}
+    \cup {Probe(p, CalTMonth, s, SmallM, BigM) : p \in 1..3, s \in Mutants(SeedM, Junk) \cup {<<>>, SeedD, SeedW, SeedT}}
+    \cup {Probe(p, CalTWeek, s, SmallW, BigW) : p \in 1..3, s \in Mutants(SeedW, Junk) \cup {<<>>, SeedD, SeedM, SeedT}}
+    \cup {Probe(p, CalTTime, s, SmallT, BigT) : p \in 1..3, s \in Mutants(SeedT, Junk) \cup {<<>>, SeedD, SeedL, <<49,50,51,48>>}}
+    \cup {Probe(p, CalTLocal, s, SmallL, BigL) : p \in 1..3, s \in Mutants(SeedL, Junk) \cup {<<>>, SeedD, SeedT}}
     \cup Wider(CalTTime, TimeStr(12, 30), SmallT, BigT)
     \cup Wider(CalTLocal, LocalStr(SeedD, TimeStr(12, 30)), SmallL, BigL)
 \* three-digit and zero years in every type
-    \cup UNION {Probes3(CalTDate, DateStr(ys, 1, 1), SmallD, BigD) \cup Probes3(CalTMonth, MonthStr(ys, 1), SmallM, BigM)
-                \cup Probes3(CalTWeek, WeekStr(ys, 1), SmallW, BigW)
-                \cup Probes3(CalTLocal, LocalStr(DateStr(ys, 1, 1), SmallT), SmallL, BigL)
-                : ys \in {Pad(999, 3), Pad(0, 4), Pad(0, 5), Pad(1, 3), Pad(2020, 5), Pad(1, 7), <<>>}}
+    \cup {Probe(p, CalTDate, DateStr(ys, 1, 1), SmallD, BigD) : p \in 1..3, ys \in OddYears}
+    \cup {Probe(p, CalTMonth, MonthStr(ys, 1), SmallM, BigM) : p \in 1..3, ys \in OddYears}
+    \cup {Probe(p, CalTWeek, WeekStr(ys, 1), SmallW, BigW) : p \in 1..3, ys \in OddYears}
+    \cup {Probe(p, CalTLocal, LocalStr(DateStr(ys, 1, 1), SmallT), SmallL, BigL) : p \in 1..3, ys \in OddYears}
 
-Cases == SetToSeq(WeekCases \cup DateCases \cup MonthCases \cup TimeCases \cup LocalCases \cup MalCases)
+\* (concatenation, not union: normalising one large set of element records is slow in TLC)
+Cases == SetToSeq(WeekCases) \o SetToSeq(DateCases) \o SetToSeq(MonthCases) \o SetToSeq(TimeCases)
+         \o SetToSeq(LocalCases) \o SetToSeq(MalCases)
 NB == NumBatches(Len(Cases), BatchSize)
 ASSUME PrintT(<<"cases", Len(Cases), "batches", NB>>)
 
 Init == BInit
-Next == BNext(NB)
-Doc == MkDoc(BatchOf(Cases, BatchSize, b), FALSE, <<>>)
-Emit == b <= 0 \/ PrintT(ToJson(Answer(Doc)))
-Law == b <= 0 \/ Laws(Doc)
+Next == BNext(NB) /\ doc' = (IF b' > 0 THEN MkDoc(BatchOf(Cases, BatchSize, b'), FALSE, <<>>) ELSE NoDoc)
+Emit == b <= 0 \/ PrintT(ToJson(Answer(doc)))
+Law == b <= 0 \/ Laws(doc)
 =============================================================================
